@@ -391,10 +391,63 @@ def run_line(block, ctx):
     ctx.sample(block[0])
 
 
+# -- the caller keeps ONE parameter object and updates it in place -------------------
+
+def check_shared(case):
+    """History: one Angle object for the obliquity / observer latitude is re-used over the
+    whole parameter alphabet (updated with set()) and one object per coordinate as well;
+    every round trip must still close."""
+    pair = case["pair"]
+    kf, kb, fwd, back, _, _ = PAIRS[pair]
+    pars = OBLS if pair == "ecliptical" else (PHIS if pair == "horizontal" else [0.0])
+    out = []
+    par_obj = Angle(pars[0])
+    a, b = Angle(0.0), Angle(0.0)
+    dirs = [(10.0, 20.0), (200.0, -45.0), (359.5, 70.0), (95.0, -5.0)]
+
+    def call(fn, x, y, pobj):
+        if pair == "ecliptical":
+            from pymeeus.Coordinates import equatorial2ecliptical as f1, ecliptical2equatorial as f2
+            return (f1 if fn == "f" else f2)(x, y, pobj)
+        if pair == "horizontal":
+            return (equatorial2horizontal if fn == "f" else horizontal2equatorial)(x, y, pobj)
+        return (equatorial2galactic if fn == "f" else galactic2equatorial)(x, y)
+    for p in list(pars) + list(reversed(pars)):
+        par_obj.set(p)
+        for lo, la in dirs:
+            a.set(lo)
+            b.set(la)
+            try:
+                l1, b1 = call("f", a, b, par_obj)
+                l2, b2 = call("b", l1, b1, par_obj)
+                rt = S.sep_ll(lo, la, l2._deg, b2._deg)
+                il, ib = image(kf, lo, la, p)
+                im = S.sep_ll(il, ib, l1._deg, b1._deg)
+            except Exception as ex:
+                out.append(("shared_exception", "%s with re-used argument objects raised %r" % (pair, ex), None))
+                continue
+            if rt > TOL or im > TOL:
+                out.append(("shared_object", "%s with ONE re-used parameter object (now %r): (%r, %r) round trip off by "
+                            "%.3g deg, image off by %.3g deg" % (pair, p, lo, la, rt, im), max(rt, im)))
+    return out
+
+
+def run_shared(block, ctx):
+    for case in block:
+        ctx.evals += 1
+        ctx.nt_count += 1
+        for site, msg, dev in check_shared(case):
+            ctx.viol(case, msg, dev=dev, site=site)
+        ctx.outcome(case["pair"])
+    ctx.sample(block[0])
+
+
 def clauses(tier):
     return [
         Clause("directions", chunks(dir_cases(tier), 64), run_dirs,
                lambda c: [m for _, m, _ in check_dir(c)], floor=2000),
+        Clause("shared_objects", [[{"pair": k} for k in PAIRS]], run_shared,
+               lambda c: [m for _, m, _ in check_shared(c)], floor=3, shape="H"),
         Clause("rigidity", chunks(pair_cases(), 18), run_pairs,
                lambda c: [m for _, m, _ in check_pairs(c)], floor=10),
         Clause("metric", chunks(metric_cases(tier), 16), run_metric,
